@@ -2,7 +2,7 @@
    list, prod, unit, sumbool map to OCaml's own; N, Z, positive, nat stay as
    extracted inductives so 2^64 arithmetic is exact. No Extract Constant. *)
 From Coq Require Import ExtrOcamlBasic.
-From V Require Import Base.Prelude Base.Prog Meta.Model Flate.Spec XFlate.Index XFlate.Writer XFlate.Reader Bzip2.Common Bzip2.SpecR Bzip2.SpecW Brotli.Tables Brotli.Spec Life.Writers XFlate.C15 Prefix.Code XFlate.Refine XFlate.RefineCheck Prefix.ReaderImpl Prefix.ReaderSpec Prefix.ReaderImplX Prefix.WriterImpl XFlate.RoundTripStmt Window.Dict Window.DictSpec Window.DictBr.
+From V Require Import Base.Prelude Base.Prog Meta.Model Flate.Spec XFlate.Index XFlate.Writer XFlate.Reader Bzip2.Common Bzip2.SpecR Bzip2.SpecW Brotli.Tables Brotli.Spec Life.Writers XFlate.C15 Prefix.Code XFlate.Refine XFlate.RefineCheck Prefix.ReaderImpl Prefix.ReaderSpec Prefix.ReaderImplX Prefix.WriterImpl XFlate.RoundTripStmt Window.Dict Window.DictSpec Window.DictBr Prefix.DecTable.
 Extraction Language OCaml.
 Extraction "model.ml"
   meta_encode meta_decode reverse_search computeHuffLen encode_block
@@ -20,4 +20,7 @@ Extraction "model.ml"
   Prefix.WriterImpl.winit Prefix.WriterImpl.bwrun Prefix.WriterImpl.wsink_data
   XFlate.RoundTripStmt.nonfinal_blocks XFlate.Reader.is_sync
   Window.Dict.dd_init Window.Dict.dd_run Window.Dict.dd_run_from Window.Dict.d_cap Window.DictSpec.check_spec
-  Window.DictBr.br_init Window.DictBr.br_run.
+  Window.DictBr.br_init Window.DictBr.br_run
+  Prefix.DecTable.dec_init Prefix.DecTable.dec_dump Prefix.DecTable.dec_lookup Prefix.DecTable.dt_run
+  Prefix.DecTable.enc_init Prefix.DecTable.enc_dump Prefix.DecTable.enc_lookup Prefix.DecTable.enc_syms
+  bits_to_bytes Prefix.ReaderImpl.rev8.
